@@ -141,40 +141,68 @@ type field struct {
 	b    []byte
 }
 
-// tile decides L1 for one call: the fields, in SOME order, are exactly the drawn stream. Greedy matching at the
-// current stream position; ambiguity exists only for constant streams where every order is equivalent.
+// tile decides L1 for one call: every field is a contiguous run of the bytes drawn in this call, and the runs of
+// different fields are pairwise disjoint (each field position is fed by its own drawn byte). Drawn bytes that end
+// up in no field are allowed: drawing more entropy than is used is harmless and not constrained by the property.
+// Decision procedure: some ORDER of the fields can be laid out left to right, each field at the leftmost matching
+// offset after the previous one (leftmost placement is optimal for a fixed order); all orders are tried for up to
+// 7 fields, the given order and its reverse beyond that.
 func tile(stream []byte, fields []field) (bool, string) {
-	used := make([]bool, len(fields))
-	pos := 0
-	var order []string
-	for n := 0; n < len(fields); n++ {
-		found := -1
-		for i, f := range fields {
-			if used[i] || pos+len(f.b) > len(stream) {
-				continue
-			}
-			if bytes.Equal(stream[pos:pos+len(f.b)], f.b) {
-				found = i
-				break
-			}
+	var fs []field
+	for _, f := range fields {
+		if len(f.b) > 0 {
+			fs = append(fs, f)
 		}
-		if found < 0 {
-			var rest []string
-			for i, f := range fields {
-				if !used[i] {
-					rest = append(rest, fmt.Sprintf("%s=%x", f.name, f.b))
+	}
+	try := func(order []int) bool {
+		pos := 0
+		for _, fi := range order {
+			f := fs[fi]
+			i := bytes.Index(stream[pos:], f.b)
+			if i < 0 {
+				return false
+			}
+			pos += i + len(f.b)
+		}
+		return true
+	}
+	n := len(fs)
+	order := make([]int, n)
+	for i := range order {
+		order[i] = i
+	}
+	if n > 7 {
+		rev := make([]int, n)
+		for i := range rev {
+			rev[i] = n - 1 - i
+		}
+		if try(order) || try(rev) {
+			return true, ""
+		}
+	} else {
+		var perm func(k int) bool
+		perm = func(k int) bool {
+			if k == n {
+				return try(order)
+			}
+			for i := k; i < n; i++ {
+				order[k], order[i] = order[i], order[k]
+				if perm(k + 1) {
+					return true
 				}
+				order[k], order[i] = order[i], order[k]
 			}
-			return false, fmt.Sprintf("after matching %v at stream offset %d no remaining field equals the drawn bytes: drawn=%x unmatched fields %v", order, pos, stream[pos:], rest)
+			return false
 		}
-		used[found] = true
-		order = append(order, fields[found].name)
-		pos += len(fields[found].b)
+		if perm(0) {
+			return true, ""
+		}
 	}
-	if pos != len(stream) {
-		return false, fmt.Sprintf("%d drawn bytes do not appear in any field (fields %v cover %d of %d drawn bytes; surplus %x)", len(stream)-pos, order, pos, len(stream), stream[pos:])
+	var desc []string
+	for _, f := range fs {
+		desc = append(desc, fmt.Sprintf("%s=%x", f.name, f.b))
 	}
-	return true, ""
+	return false, fmt.Sprintf("the fields %v cannot be laid out as pairwise disjoint runs of the bytes drawn in this call (drawn=%x)", desc, stream)
 }
 
 // consecutive decides the range half of L2: the draws of a history start where the previous call ended.
